@@ -51,7 +51,7 @@ def gen_enum(rng, prefixes):
     return members, rng.random() < 0.3
 
 
-def run_batch(enums, consts, prefixes, unpref):
+def run_batch(enums, consts, prefixes, unpref, passes=False, comments=()):
     from scanner import (run, enum_typedef, const, td, FS, CSYMBOL_TYPE_TYPEDEF, CORE, CNS, gir_ns)
     syms = []
     for a, t in ALIASES.items():
@@ -62,7 +62,7 @@ def run_batch(enums, consts, prefixes, unpref):
         kw = {'const_int': val} if kind == 'int' else {'const_string': val} if kind == 'str' else \
             {'const_boolean': val} if kind == 'bool' else {'const_double': val}
         syms.append(const('FOO_K%d' % i, td(ty) if ty else None, **kw))
-    r = run(syms, symbol_prefixes=list(prefixes), accept_unprefixed=unpref, passes=False, warnings=False)
+    r = run(syms, symbol_prefixes=list(prefixes), accept_unprefixed=unpref, passes=passes, warnings=False, comments=list(comments))
     ns = gir_ns(r.root)
     eobs = {}
     for el in ns:
@@ -114,6 +114,22 @@ def main(tier, seed):
             consts[0] = ('int', 'guint8', 300)
             consts[1] = ('int', 'guint', -1)
         eobs, kobs = run_batch(enums, consts, prefixes, unpref)
+        # the same constants again through the annotation passes, a third of them with a GTK-Doc block of their own
+        # (no (value) annotation): documenting a constant must not change it
+        documented = [i for i in range(len(consts)) if i % 3 == b % 3]
+        comments = [('/**\n * FOO_K%d:\n *\n * The constant number %d.\n */' % (i, i), '/src/foo.h', 1000 + 10 * i) for i in documented]
+        try:
+            _, kobs2 = run_batch([], consts, prefixes, unpref, passes=True, comments=comments)
+        except (Exception, SystemExit) as e:      # noqa
+            ck.failing_input('the scanner fails on documented constants: %r' % (e,), dict(consts=consts, documented=documented))
+            kobs2 = None
+        if kobs2 is not None:
+            for i in documented:
+                a, b2 = kobs.get('FOO_K%d' % i), kobs2.get('FOO_K%d' % i)
+                if a is not None and (b2 is None or b2[1] != a[1]):
+                    ck.failing_input('a constant with a comment block of its own (and no (value) annotation) loses or changes its value',
+                                     dict(kind=consts[i][0], type=consts[i][1], value=consts[i][2]),
+                                     detail=dict(undocumented=a, documented=b2))
         for i, (members, bitfield) in enumerate(enums):
             o = eobs.get('FooE%d' % i)
             ecases.append(dict(prefixes=prefixes, unpref=unpref, members=members, bitfield=bitfield, obs=o))
@@ -137,6 +153,21 @@ def main(tier, seed):
             ck.failing_input('string constant not verbatim', dict(value=c['value']), detail=c['obs'])
         elif c['kind'] == 'bool' and c['obs'][1] != ('true' if c['value'] else 'false'):
             ck.failing_input('boolean constant not true/false', dict(value=c['value']), detail=c['obs'])
+        elif c['kind'] == 'int':
+            # fixed-width unsigned constants wrap modulo their own width (judged without the model)
+            fund = ALIASES.get(c['type'], c['obs'][2])
+            w = {'guint8': 8, 'guint16': 16, 'guint32': 32, 'guint64': 64}.get(fund)
+            try:
+                v = int(c['obs'][1])
+            except (TypeError, ValueError):
+                ck.failing_input('integer constant not emitted as an integer literal', dict(type=c['type'], value=c['value']), detail=c['obs'])
+                continue
+            if w is not None and not (0 <= v < 2 ** w and (v - c['value']) % (2 ** w) == 0):
+                ck.failing_input('unsigned constant not wrapped modulo its own width', dict(type=c['type'], value=c['value']),
+                                 detail=dict(observed=c['obs'], expected=c['value'] % (2 ** w)))
+            elif w is None and fund not in ('guint', 'gulong', 'gsize', 'gushort', 'guchar', 'gunichar') and v != c['value']:
+                ck.failing_input('signed or untyped integer constant not emitted as written', dict(type=c['type'], value=c['value']),
+                                 detail=c['obs'])
 
     if ck.models_ok:
         eitems = []
